@@ -6,15 +6,15 @@ CONSTANTS
   K = 3
   Maj = 2
   MaxCalls = 1
-  MaxIoErr = 1
+  MaxIoErr = 0
   MaxAcqErr = 0
   MaxExtDel = 0
   MaxExpire = 0
-  MaxDisc = 0
+  MaxDisc = 1
   MaxSrcCancel = 0
   NoLoop = TRUE
   AsyncPush = FALSE
-  FixCancelFirst = FALSE
+  FixCancelFirst = TRUE
   FixRetryTimer = TRUE
   FixLocalHandoff = TRUE
   BugExtendNoToken = FALSE
@@ -22,10 +22,10 @@ CONSTANTS
   BugIgnoreInval = FALSE
   BugLostByCause = FALSE
   BugNilNoGate = FALSE
-  DiscParkedOnly = FALSE
+  DiscParkedOnly = TRUE
   Record = FALSE
   GenLen = 0
-INVARIANTS DoneBeforeRelease
+INVARIANTS TypeOK MutualExclusion DoneBeforeRelease NoLostWakeup CountersOK NoStaleKeys ExtendsOwnKeyOnly CancelAtMajorityLoss LostCounterOK
 
 
 CHECK_DEADLOCK FALSE
